@@ -42,7 +42,7 @@ impl Read for ScriptReader {
 fn any_state<const LM: usize, const EXTRA: usize>() -> (LowMarkBufReader<ScriptReader>, usize, usize) {
     // low mark and capacity are CONCRETE per instance (a buffer of symbolic size costs CBMC > 17 GB: probed).
     // Instances cover low mark < cache line, == cache line and > cache line (the production setting: low mark 65555 >> 4096):
-    // (1, 0), (4, 3), (8, 0), (20, 4) with the cache line scaled to 8
+    // (1, 0), (4, 3), (8, 0), (10, 0) with the cache line scaled to 8; the unwind bound 13 covers a fill that needs 10 one-byte reads
     let low_mark: usize = LM;
     let capacity = low_mark + CACHE_LINE_SIZE + EXTRA;
     let src_len: usize = kani::any();
@@ -197,7 +197,7 @@ pub fn fmt_stub(_args: std::fmt::Arguments<'_>) -> String {
 macro_rules! lmbr_h {
     ($name:ident, $f:ident, $lm:expr, $extra:expr) => {
         #[kani::proof]
-        #[kani::unwind(8)]
+        #[kani::unwind(13)]
         #[kani::stub(alloc::fmt::format, fmt_stub)]
         fn $name() {
             $f::<$lm, $extra>();
@@ -207,10 +207,10 @@ macro_rules! lmbr_h {
 lmbr_h!(c04_b1_fill_lm4_x3, c04_b1_fill_buf_step, 4, 3);
 lmbr_h!(c04_b1_fill_lm1_x0, c04_b1_fill_buf_step, 1, 0);
 lmbr_h!(c04_b1_fill_lm8_x0, c04_b1_fill_buf_step, 8, 0);
-lmbr_h!(c04_b1_fill_lm20_x4, c04_b1_fill_buf_step, 20, 4);
+lmbr_h!(c04_b1_fill_lm10_x0, c04_b1_fill_buf_step, 10, 0);
 lmbr_h!(c04_b1_consume_lm4_x3, c04_b1_consume_step, 4, 3);
-lmbr_h!(c04_b1_consume_lm20_x4, c04_b1_consume_step, 20, 4);
+lmbr_h!(c04_b1_consume_lm10_x0, c04_b1_consume_step, 10, 0);
 lmbr_h!(c04_b1_read_lm4_x3, c04_b1_read_step, 4, 3);
-lmbr_h!(c04_b1_read_lm20_x4, c04_b1_read_step, 20, 4);
+lmbr_h!(c04_b1_read_lm10_x0, c04_b1_read_step, 10, 0);
 lmbr_h!(c04_b1_seek_lm4_x3, c04_b1_seek_step, 4, 3);
-lmbr_h!(c04_b1_seek_lm20_x4, c04_b1_seek_step, 20, 4);
+lmbr_h!(c04_b1_seek_lm10_x0, c04_b1_seek_step, 10, 0);
